@@ -10,7 +10,8 @@
   stream `ext.load`       J       -> (load RELOADED REDOC)        `from_json` of any document
   stream `std.helper`     H       -> (helper "ext" type|op "def" (A…) (params P…)|missing fits) | (error ValueError)
         H ::= (int_t w) | float_t | string_t | (array T n) | (list T) | (sarray T) | (divmod w) | not
-  `!unsupported`: a value expression that cannot be evaluated, or a document with lowering functions.
+  `!unsupported`: a value expression that cannot be evaluated, a value for which the value layer's round trip
+  (hypothesis `ValRT` of the theorem) fails, or a document with lowering functions.
 -/
 import HugrVerif.Sexp
 import HugrVerif.Bridge.Ext
@@ -74,6 +75,19 @@ def runStep (e : Extension) : Step → Except BuildErr Extension
 def build (p : Program) : Except BuildErr Extension :=
   p.steps.foldlM runStep (Extension.new p.name p.version p.reqs)
 
+/-- the hypothesis `ValRT` of the round-trip theorem, decided for one value (a value that cannot be
+    serialised at all is reported as `(error tojson)` by the round trip itself) -/
+def valRTok (v : Value) : Bool :=
+  match encVal v with
+  | .error _ => true
+  | .ok j =>
+    match Drive.Val.decode j with
+    | .error _ => false
+    | .ok v' =>
+      match encVal v' with
+      | .ok j' => Json.beq j' j
+      | .error _ => false
+
 def handleRoundtrip (p : Sexp) : String :=
   match programOfSexp p with
   | none => "!bad-payload"
@@ -82,6 +96,7 @@ def handleRoundtrip (p : Sexp) : String :=
     | .error .valueError => (err "ValueError").toString
     | .error .unsupported => "!unsupported"
     | .ok e =>
+      if e.values.any (fun kv => !valRTok kv.2.val) then "!unsupported valrt" else
       let (d, j?) := docObs e
       match j? with
       | none => (Sexp.list [.atom "rt", dump e, d, .atom "-", .atom "-"]).toString
